@@ -170,7 +170,9 @@ peg::parser! {
                 let start = s.location();
                 let end = &d.loc;
                 let loc = SourceSpan::within(start, end);
-                ast::ForClauseCommand { variable_name: n.to_owned(), values: w, body: d, loc }
+                // N.B. `in` followed by no words is an empty list; it doesn't stand for the
+                // positional parameters like a missing `in` does.
+                ast::ForClauseCommand { variable_name: n.to_owned(), values: Some(w.unwrap_or_default()), body: d, loc }
             } /
             s:specific_word("for") n:name() sequential_sep()? d:do_group() {
                 let start = s.location();
